@@ -8,6 +8,7 @@ import (
 	"net/http"
 	"net/url"
 	"reflect"
+	"runtime"
 	"strings"
 	"sync"
 	"sync/atomic"
@@ -34,6 +35,7 @@ type flaky struct {
 	failHdr     map[string][]string   // returned together with the error of a failing attempt (servers answer 429 / 503 with headers)
 	latency     map[int]time.Duration // attempt index -> how long the wrapped getter takes to answer
 	maxCalls    int                   // safety valve against a spinning loop: after this many attempts, sleep a little per call
+	abort       int32                 // set when the harness has given up waiting for Get to return
 }
 
 func (f *flaky) Get(u string) (map[string][]string, []byte, error) {
@@ -41,6 +43,9 @@ func (f *flaky) Get(u string) (map[string][]string, []byte, error) {
 	n := len(f.attempts)
 	f.attempts = append(f.attempts, time.Since(f.start))
 	f.mu.Unlock()
+	if atomic.LoadInt32(&f.abort) != 0 {
+		runtime.Goexit() // the caller gave up on a Get that does not come back: end its goroutine here
+	}
 	if f.maxCalls > 0 && n > f.maxCalls {
 		time.Sleep(time.Millisecond) // keep a busy loop from burning the whole machine; it is already counted
 	}
@@ -94,6 +99,9 @@ type retryResult struct {
 	late     time.Duration // worst timer lateness observed while the case ran
 }
 
+// errHung stands in for the result of a Get that had not returned when the harness stopped waiting for it.
+var errHung = errors.New("harness: Get did not return")
+
 func runRetry(c retryCase) retryResult {
 	hdr := retryHeaders()
 	body := []byte("the body of the first successful response")
@@ -137,8 +145,32 @@ func runRetry(c retryCase) retryResult {
 		}
 	}()
 	f.start = time.Now()
-	h, b, err := g.Get("https://example.invalid/x")
-	ret := time.Since(f.start)
+	var h map[string][]string
+	var b []byte
+	var err error
+	var ret time.Duration
+	returned := false
+	done := make(chan struct{})
+	go func() {
+		defer close(done)
+		h, b, err = g.Get("https://example.invalid/x")
+		ret = time.Since(f.start)
+		returned = true
+	}()
+	select {
+	case <-done:
+	case <-time.After(c.timeout + c.cap + 50*c.slowFailure + c.slowSuccess + 30*time.Second):
+		// "instead of hanging": far beyond timeout + one retry delay and still no result. The goroutine is ended from inside the
+		// wrapped getter at its next attempt; a Get that does not even call the getter any more is left behind.
+		atomic.StoreInt32(&f.abort, 1)
+		select {
+		case <-done:
+		case <-time.After(5 * time.Second):
+		}
+		if !returned {
+			h, b, err, ret = nil, nil, errHung, time.Since(f.start)
+		}
+	}
 	time.Sleep(30 * time.Millisecond) // would a stray retry still arrive?
 	close(stop)
 	wg.Wait()
@@ -293,6 +325,9 @@ func c20(x *mon.Ctx) {
 				probs = append(probs, fmt.Sprintf("%d attempts for %d failures followed by a success (an attempt after the first success, or a skipped one)", n, c.failures))
 			}
 		} else {
+			if r.err == errHung {
+				probs = append(probs, fmt.Sprintf("Get had not returned %v after it was called (the harness stopped waiting)", r.ret.Round(time.Second)))
+			}
 			if r.hdr != nil || r.body != nil {
 				probs = append(probs, "an error was returned together with response data")
 			}
